@@ -312,8 +312,8 @@ macro_rules! scenario {
     ($size:expr, $roff:expr, $version:expr; $($script:tt)*) => {{
         let mut imp = Imp::<$size, $roff>;
         H.area_size = $size;
-        let mut t1 = mt::new_v1(0);
-        let mut t2 = mt::new_v2(0);
+        let mut t1 = mt::new_v1_a();
+        let mut t2 = mt::new_v2_a();
         let version: u32 = match $version {
             Some(v) => v,
             None => if kani::any() { 1 } else { 2 },
@@ -488,3 +488,30 @@ c21!(c21_ind_peped, 3, 2, 1, None, [P E P E], cov_peped);
 c21!(c21_ind_pepepd, 3, 2, 1, None, [P E P E P], cov_pepepd);
 c21!(c21_ind_ppd, 3, 2, 1, None, [P P], cov_ppd);
 c21!(c21_ind_ppepd, 3, 2, 1, None, [P P E P], cov_ppepd);
+
+// Thorough tier: 8-byte area with the results at offset 4 (unwind 9 = eight
+// poisoned bytes + loop exit), and longer schedules with more spurious polls.
+fn cov_pppd() {
+    unsafe {
+        kani::cover!(mt::L[0].n_register == 3 && H.cancel_calls == 1, "two spurious re-polls, then dropped");
+    }
+}
+fn cov_peppd() {
+    unsafe {
+        kani::cover!(
+            mt::L[0].n_delivered == 1 && mt::L[0].n_register == 3 && H.cancel_calls == 1 && H.dealloc_lists == 1,
+            "STARTED polled, spurious re-poll, dropped: cancel after start"
+        );
+    }
+}
+fn cov_ppeped() {
+    unsafe {
+        kani::cover!(mt::L[0].n_delivered == 2 && mt::L[0].n_register == 3 && H.results_rust_dropped == 1, "spurious poll, two events, RETURNED queued at drop");
+    }
+}
+c21!(c21_deep_pepepd, 9, 8, 4, None, [P E P E P], cov_pepepd);
+c21!(c21_deep_peped, 9, 8, 4, None, [P E P E], cov_peped);
+c21!(c21_deep_ppepd, 9, 8, 4, None, [P P E P], cov_ppepd);
+c21!(c21_deep_pppd, 9, 8, 4, None, [P P P], cov_pppd);
+c21!(c21_deep_peppd, 9, 8, 4, None, [P E P P], cov_peppd);
+c21!(c21_deep_ppeped, 9, 8, 4, None, [P P E P E], cov_ppeped);
